@@ -241,6 +241,10 @@ func init() {
 	}
 	externals["(*encoding/json.Decoder).Decode"] = func(fr *frame, a []value) value {
 		box := (*a[0].(*value)).(structure)[0].(nativeBox)
+		if rd, isI := box.v.(value).(iface); isI && rd.t == nil {
+			// json.NewDecoder(nil).Decode: the decoder calls Read on a nil io.Reader
+			panic(rtErr(fr, "invalid memory address or nil pointer dereference"))
+		}
 		s, ok := readerString(box.v.(value))
 		if !ok {
 			panic(pathAbort{"unsupported: json.Decoder over a reader that is not a concrete in-memory reader"})
